@@ -1,7 +1,7 @@
 (* C15 non-vacuity: concrete inputs meeting the hypotheses of the theorems in
    Props.v, and concrete instances of the abstract codings / primitives that
    satisfy the section hypotheses (so the hypotheses are consistent). *)
-From CJ Require Import Common.Base Common.BaseProofs C15.Model C15.Proofs C15.ModelName C15.ProofsName C15.ModelObf C15.ProofsObf C15.ModelAny C15.ProofsAny C15.ModelDns C15.ProofsDns C15.Run.
+From CJ Require Import Common.Base Common.BaseProofs C15.Model C15.Proofs C15.ModelName C15.ProofsName C15.ModelObf C15.ProofsObf C15.ModelAny C15.ProofsAny C15.ModelDns C15.ProofsDns C15.ModelB32 C15.ModelExch C15.ProofsExch C15.Run.
 From Coq Require Import Lia ZifyN ZifyNat ZifyBool.
 Ltac Zify.zify_post_hook ::= Z.div_mod_to_equations.
 
@@ -155,3 +155,41 @@ Proof. eexists. split; vm_compute; reflexivity. Qed.
 Example ex_rdata_overflow :
   wire_message {| m_id := 0; m_flags := 0; m_q := []; m_an := [{| rr_name := [[97]]; rr_type := 16; rr_class := 1; rr_ttl := 0; rr_data := lcg_bytes 1 65536 |}]; m_ns := []; m_ar := [] |} = Err EOverflow.
 Proof. vm_compute. reflexivity. Qed.
+
+(* ---- the exchange: an instance of exchange_laws (identity "crypto", the toy coding), and one full run ---- *)
+Definition id_write (rnd spk p : bytes) : option (bytes * bytes) := if wf_bytes p then Some (p, spk) else None.
+Definition id_read (k hs : bytes) : option (bytes * bytes) := Some (hs, k).
+Definition id_crypt (cs m : bytes) : option bytes := Some m.
+Lemma toy_exchange_laws : exchange_laws toy_enc toy_dec bytes id_write id_read id_crypt id_crypt (fun k => k).
+Proof.
+  constructor.
+  - exact toy_roundtrip.
+  - intros rnd k p hs cs. unfold id_write. destruct (wf_bytes p) eqn:W; [|discriminate]. intros [= <- <-].
+    split; [exact W|]. exists k. split; [reflexivity|]. intros r enc [= <-]. reflexivity.
+Qed.
+
+Definition ex_dom : name := [[116]; [101; 120]].
+Definition ex_process (p : bytes) : option bytes := Some (rev p ++ [7; 7]).
+Example ex_exchange :
+  exists qw cs, requester_query toy_enc bytes id_write [] [9] ex_dom 4242 [1; 2; 3; 250] = Some (qw, cs) /\
+    exists rw, responder_handle toy_dec bytes id_read id_crypt [9] ex_dom ex_process qw = (Some [1; 2; 3; 250], Some rw) /\
+               requester_receive bytes id_crypt cs ex_dom rw = Some [250; 3; 2; 1; 7; 7].
+Proof.
+  do 2 eexists. split; [vm_compute; reflexivity|]. eexists. split; vm_compute; reflexivity.
+Qed.
+(* with the concrete base32 of ModelB32 *)
+Example ex_exchange_b32 :
+  exists qw cs, requester_query b32_encode bytes id_write [] [9] ex_dom 1 (lcg_bytes 3 60) = Some (qw, cs) /\
+    exists rw, responder_handle b32_decode bytes id_read id_crypt [9] ex_dom ex_process qw = (Some (lcg_bytes 3 60), Some rw) /\
+               requester_receive bytes id_crypt cs ex_dom rw = Some (rev (lcg_bytes 3 60) ++ [7; 7]).
+Proof.
+  do 2 eexists. split; [vm_compute; reflexivity|]. eexists. split; vm_compute; reflexivity.
+Qed.
+(* an answer above the datagram limit: the responder substitutes an empty body, the requester gets the empty string to decrypt *)
+Example ex_exchange_oversize :
+  exists qw cs, requester_query b32_encode bytes id_write [] [9] ex_dom 1 [1] = Some (qw, cs) /\
+    exists rw, snd (responder_handle b32_decode bytes id_read id_crypt [9] ex_dom (fun _ => Some (lcg_bytes 1 1500)) qw) = Some rw /\
+               blen rw <= 1232 /\ requester_receive bytes id_crypt cs ex_dom rw = id_crypt cs [].
+Proof.
+  do 2 eexists. split; [vm_compute; reflexivity|]. eexists. split; [vm_compute; reflexivity|]. split; [vm_compute; discriminate|vm_compute; reflexivity].
+Qed.
